@@ -160,6 +160,12 @@ func (c15) Gen(env *Env, seed uint64, tier string, i int) *Case {
 				// it, it is still one of the files that --print-only echoes
 				data = []byte(fmt.Sprintf("// Package sample, part %d.\npackage sample // only a clause\n", id))
 				c.Extra["no_decls"] = "1"
+				if c.Extra["smallest_file"] == "" && r.Chance(1, 2) {
+					// the smallest Go file there is: nine bytes, no final newline
+					// (at most one per world, its echo cannot be told from a twin's)
+					data = []byte("package p")
+					c.Extra["smallest_file"] = "1"
+				}
 			}
 			ns := world.NodeSpec{Path: p, Kind: "file", Data: data}
 			if r.Chance(1, 10) {
@@ -603,6 +609,9 @@ func (c15) Eval(env *Env, c *Case) []Violation {
 	if c.Extra["dir_stem_file"] == "1" {
 		env.Probe("file-named-like-sibling-directory")
 	}
+	if c.Extra["smallest_file"] == "1" {
+		env.Probe("nine-byte-go-file")
+	}
 	if c.Extra["case_pair"] == "1" {
 		env.Probe("names-differing-only-in-case")
 	}
@@ -794,11 +803,19 @@ func (c15) Eval(env *Env, c *Case) []Violation {
 		if c.Flags.Verbose {
 			// -v log lines: "<absolute path as gopatch knows it>: patched"
 			var kept []string
-			for _, l := range strings.SplitAfter(out, "\n") {
+			isLog := func(l string) bool {
 				if strings.HasPrefix(l, "/") && (strings.HasSuffix(l, ": patched\n") || strings.HasSuffix(l, ": skipped\n")) {
+					return true
+				}
+				return strings.HasPrefix(l, "generated file /") && strings.HasSuffix(l, ": skipped\n")
+			}
+			for _, l := range strings.SplitAfter(out, "\n") {
+				if isLog(l) {
 					continue
 				}
-				if strings.HasPrefix(l, "generated file /") && strings.HasSuffix(l, ": skipped\n") {
+				if c.Extra["smallest_file"] == "1" && strings.HasPrefix(l, "package p") && isLog(l[len("package p"):]) {
+					// the one file without a final newline: the log line follows it on the same line
+					kept = append(kept, "package p")
 					continue
 				}
 				kept = append(kept, l)
